@@ -13,6 +13,7 @@
 #include <tbox/eventx/thread_pool.cpp>     // included as source: gives access to ThreadPool::Data
 #include <tbox/eventx/work_thread.cpp>
 #include <condition_variable>
+#include <atomic>
 
 using namespace tbox;
 using eventx::ThreadPool; using eventx::WorkThread;
@@ -41,7 +42,8 @@ struct Rec { bool accepted = false, has_cb = false; int prio = 0; int started = 
   bool claimed_exec = false;  // status said "executing" while the body had not started: it has to start
   int refused = 0;
   bool unordered = false; };  // submitted while another client thread was submitting too: the harness does not know which came first         // slot REJ: number of refused submissions   // which loop the completion callback belongs to / was run by
-Rec R[MAXTASK]; long g_seq = 0; int g_running = 0, g_max_running = 0;
+Rec R[MAXTASK]; std::atomic<long> g_seq(0);      // atomic: callbacks stamp it on the loop thread while bodies may be running (not a scheduling point)
+ int g_running = 0, g_max_running = 0;
 std::mutex *g_m; std::condition_variable *g_cv; bool g_gate_open = false;
 ThreadPool *g_tp = nullptr; WorkThread *g_wt = nullptr;
 bool g_concurrent_clients = false;
@@ -150,7 +152,7 @@ std::function<void()> cb_of(int i, int kind = CB_PLAIN) { return [i, kind] { R[i
 
 void submit(int i, int prio, bool cb, int kind, Loop5 *explicit_loop) {
   R[i].prio = prio; R[i].has_cb = cb; R[i].epoch = g_epoch; R[i].want_loop = explicit_loop ? explicit_loop->id : 0;
-  int cbk = g_next_cb; g_next_cb = CB_PLAIN; R[i].unordered = g_concurrent_clients;
+  int cbk = g_next_cb; if (cbk != CB_PLAIN) g_next_cb = CB_PLAIN; R[i].unordered = g_concurrent_clients;
   if (i & 1) {       // `const &` overloads
     const std::function<void()> body = body_of(i, kind), done = cb_of(i, cbk);
     if (g_tp) R[i].tok = cb ? g_tp->execute(body, done, prio) : g_tp->execute(body, prio);
@@ -322,10 +324,12 @@ int pool_script(int scen, ThreadPool &tp, Loop5 &loop) {
       submit(0, 0, true, BODY_THROW); submit(1, 0, true); wait_task(0); wait_task(1); waited = g_epoch; late_check(0); break;
     case 14:   // the completion callback of task 0 (loop thread, while the loop drains) submits task 1 and asks for its status
       loop.notify_posts = true; g_next_cb = CB_CHAIN; submit(0, 0, true); wait_task(0);
-      while (!R[0].cb) { loop.wait_posted(); drain(&loop); }      // blocks until a worker has handed something in; a callback that never comes is a deadlock wait_task(1); waited = g_epoch; break;
+      while (!R[0].cb) { loop.wait_posted(); drain(&loop); }      // blocks until a worker has handed something in; a callback that never comes is a deadlock
+      wait_task(1); waited = g_epoch; break;
     case 15:   // the completion callback of task 0 calls cleanup() while task 1 is waiting / executing / done
       loop.notify_posts = true; g_next_cb = CB_CLEANUP; submit(0, 0, true); submit(1, 0, true); wait_task(0);
-      while (!R[0].cb) { loop.wait_posted(); drain(&loop); }      // blocks until a worker has handed something in; a callback that never comes is a deadlock break;
+      while (!R[0].cb) { loop.wait_posted(); drain(&loop); }
+      break;
     default: sched_fail("no such pool script %d", scen);
   }
   return waited;
